@@ -159,7 +159,7 @@ def run_hybrid(case):
         getattr(clib, fn).argtypes = [ctypes.c_void_p, CollisionS]
     for _ in range(case['n']):
         integ = r.choice(['mercurius', 'trace'])
-        resolver = r.choice(['merge', 'merge', 'merge', 'hardsphere'])
+        resolver = r.choice(['merge', 'merge', 'merge', 'hardsphere', 'absorb', 'absorb'])
         d = r.uniform(2.0, 8.0)
         vc = math.sqrt(1.0 / d)
         period = 2 * math.pi * d ** 1.5
@@ -192,6 +192,18 @@ def run_hybrid(case):
             f = r.uniform(0, 2 * math.pi)
             v = math.sqrt(1.0 / a)
             bodies.append(dict(m=r.choice([1e-7, 1e-6, 1e-4]), r=R * 0.1, x=a * math.cos(f), y=a * math.sin(f), z=0.0, vx=-v * math.sin(f), vy=v * math.cos(f), vz=0.0, bystander=1))
+        Rstar = R * 0.5
+        if resolver == 'absorb':
+            # a big star and 2-3 bodies that start INSIDE it, moving inwards: all of them are found by the first search that looks at the star (the
+            # end-of-step star search, or TRACE's full-system search in a pericentre step - searches that run WITHOUT an encounter map); the user's
+            # resolver removes whatever hits the star, so the pending collisions of that search have to be re-indexed after every removal
+            Rstar = 0.05 * d
+            for k in range(r.choice([2, 3, 3])):
+                th_ = r.uniform(0, 2 * math.pi)
+                rr_ = Rstar * r.uniform(0.4, 0.9)
+                vin_ = math.sqrt(1.0 / rr_) * r.uniform(0.05, 0.3)
+                bodies.append(dict(m=r.choice([1e-9, 1e-7]), r=R * 0.2, x=rr_ * math.cos(th_), y=rr_ * math.sin(th_), z=0.0,
+                                   vx=-vin_ * math.cos(th_) - 0.3 * vin_ * math.sin(th_), vy=-vin_ * math.sin(th_) + 0.3 * vin_ * math.cos(th_), vz=0.0, plunger=1))
         order = list(range(len(bodies)))
         if r.random() < 0.8:
             r.shuffle(order)
@@ -204,7 +216,7 @@ def run_hybrid(case):
             sim.ri_trace.r_crit_hill = r.choice([3.0, 3.0, 5.0])
         sim.dt = dt
         sim.collision = 'direct'
-        sim.add(m=1.0, r=R * 0.5, hash=ctypes.c_uint32(1000))
+        sim.add(m=1.0, r=Rstar, hash=ctypes.c_uint32(1000))
         for slot, bi in enumerate(order):
             b = bodies[bi]
             sim.add(m=b['m'], r=b['r'], x=b['x'], y=b['y'], z=b['z'], vx=b['vx'], vy=b['vy'], vz=b['vz'], hash=ctypes.c_uint32(1001 + bi))
@@ -259,7 +271,14 @@ def run_hybrid(case):
                 ent.update(before=before, after=before, out=0, over_budget=True)
                 log.append(('cb', ent))
                 return 0
-            out = clib.reb_collision_resolve_merge(ctypes.addressof(s), c) if resolver == 'merge' else clib.reb_collision_resolve_hardsphere(ctypes.addressof(s), c)
+            if resolver == 'absorb' and 1000 in (ent['h1'], ent['h2']):
+                out = 2 if ent['h1'] == 1000 else 1            # user resolver: whatever hits the star is removed
+                ent['absorbed'] = True
+            elif resolver in ('merge', 'absorb'):
+                out = clib.reb_collision_resolve_merge(ctypes.addressof(s), c)
+                ent['builtin_merge'] = True
+            else:
+                out = clib.reb_collision_resolve_hardsphere(ctypes.addressof(s), c)
             pa, pb = s.particles[c.p1], s.particles[c.p2]
             ent.update(before=before, after=[(p.x, p.y, p.z, p.vx, p.vy, p.vz, p.r, p.m) for p in (pa, pb)], out=out)
             log.append(('cb', ent))
@@ -286,6 +305,7 @@ def run_hybrid(case):
             removed = []
             pass_t, pass_presented, pass_snap, pass_group, pass_removed = None, None, None, None, None
             touched, exempt = set(), set()
+            pass_enc = [True]
 
             def close_pass():
                 if pass_snap is None or pass_group is None:
@@ -302,11 +322,11 @@ def run_hybrid(case):
                 gone = set()
                 for (h1, h2, rem) in pass_removed:
                     gone.add(rem)
-                for (i, j, _g) in req:
+                for (i, j, _g) in (req if pass_enc[0] else ()):        # completeness only where the searched set is known (the encounter group)
                     h1, h2 = hs[i], hs[j]
                     if (h1, h2) in pass_presented:
                         continue
-                    if resolver == 'merge' and (h1 in gone or h2 in gone):
+                    if resolver in ('merge', 'absorb') and (h1 in gone or h2 in gone):
                         continue
                     add('hybrid:search:overlapping-pair-of-the-encounter-group-not-handed-to-resolve:%s' % integ, '%s: at t=%r the group members %r overlap while approaching (radii %r, %r) but were never presented in that search pass (presented: %r; removed earlier in the step: %r)' % (
                         desc, pass_t, (h1, h2), pass_snap[h1][6], pass_snap[h2][6], sorted(pass_presented), removed))
@@ -317,14 +337,15 @@ def run_hybrid(case):
                     if e.get('bad_index'):
                         add('hybrid:resolve:index-out-of-range-or-self', '%s: callback with p1=%d p2=%d while N=%d' % (desc, e['p1'], e['p2'], e['N']))
                         continue
-                    if e['enc']:
+                    if True:
                         if pass_snap is not None and any(e['snap'][h] != pass_snap[h] for h in pass_snap if h not in touched and h in e['snap']):
                             close_pass()            # bodies that no resolution of the current pass has touched have moved: a sub-step lies in between
                             pass_snap = None
                         if pass_snap is None:
                             # first callback of a search pass: the state the search ran on (all collisions of a pass are collected before the first is resolved)
                             pass_t, pass_presented, pass_snap, pass_removed = e['t'], set(), e['snap'], []
-                            pass_group = list(expected) if expected is not None else list(e['group'])
+                            pass_group = (list(expected) if expected is not None else list(e['group'])) if e['enc'] else list(e['snap'].keys())
+                            pass_enc[0] = bool(e['enc'])
                             touched.clear()
                             exempt.clear()
                         if e['h1'] in touched or e['h2'] in touched:
@@ -332,7 +353,9 @@ def run_hybrid(case):
                             #  this very pass is judged against a state that no longer exists)
                             exempt.add((e['h1'], e['h2']))
                         pass_presented.add((e['h1'], e['h2']))
-                        if expected is not None:
+                        if not e['enc']:
+                            counters['hybrid_callbacks_outside_the_encounter_phase'] = counters.get('hybrid_callbacks_outside_the_encounter_phase', 0) + 1
+                        if expected is not None and e['enc']:
                             counters['hybrid_group_observations_after_a_removal'] += 1
                             if sorted(e['group']) != sorted(expected):
                                 add('hybrid:encounter-group-after-removal-is-not-the-group-minus-the-removed-body:%s' % integ, '%s: group at a later callback %r, expected %r (removed so far %r)' % (desc, e['group'], expected, removed))
@@ -342,7 +365,18 @@ def run_hybrid(case):
                     (b1, b2), (a1, a2) = e['before'], e['after']
                     if e['out'] or a1 != b1 or a2 != b2:
                         touched.update((e['h1'], e['h2']))
-                    if resolver == 'merge' and e['out']:
+                    if e.get('absorbed') and e['out']:
+                        rem = e['h2'] if e['out'] == 2 else e['h1']
+                        counters['hybrid_absorptions_by_the_star'] = counters.get('hybrid_absorptions_by_the_star', 0) + 1
+                        if rem in removed:
+                            add('hybrid:resolve:particle-removed-twice', '%s: %r' % (desc, rem))
+                        if removed and ids0.index(removed[-1]) < max(ids0.index(e['h1']), ids0.index(e['h2'])) and not e['enc']:
+                            counters['hybrid_pending_collision_reindexed_after_a_removal_without_map'] = counters.get('hybrid_pending_collision_reindexed_after_a_removal_without_map', 0) + 1
+                        removed.append(rem)
+                        pass_removed.append((e['h1'], e['h2'], rem))
+                        if expected is not None:
+                            expected = [h for h in expected if h != rem]
+                    if e.get('builtin_merge') and e['out']:
                         counters['hybrid_merges'] += 1
                         lo_ = 0 if e['p1'] < e['p2'] else 1
                         surv = (a1, a2)[lo_]
@@ -722,7 +756,8 @@ def main(tier, seed):
     inc = []
     for k in ('steps', 'callbacks', 'required_pairs', 'steps_with_collisions', 'steps_with_3plus_cluster', 'merges', 'bounces', 'ghost_pairs_required', 'removals', 'unequal_radius_pairs', 'fixup_steps',
               'hybrid_merges', 'hybrid_group_observations_after_a_removal', 'hybrid_passes_classified', 'hybrid_required_pairs', 'hybrid_steps_with_2plus_removals',
-              'hybrid_removals_from_noncontiguous_group', 'hybrid_hook_passes_without_callbacks'):
+              'hybrid_removals_from_noncontiguous_group', 'hybrid_hook_passes_without_callbacks', 'hybrid_absorptions_by_the_star',
+              'hybrid_callbacks_outside_the_encounter_phase', 'hybrid_pending_collision_reindexed_after_a_removal_without_map'):
         if V.counters.get(k, 0) == 0:
             inc.append('monitor counter %s is zero' % k)
     return V.finish(
